@@ -7,7 +7,7 @@ S = "src/state.rs"
 UNIT = Unit(
     name="dosc", uses="group_core_axioms, melpow::axiom_pow_difficulty",
     prelude=["core.rs", "raw.rs", "iter.rs", "crypto.rs", "state_abs.rs", "txmethods.rs", "num.rs", "melpow.rs"],
-    lemmas=["sums.rs", "iterlem.rs", "coinsview.rs", "header.rs", "seal_opaque.rs", "tips.rs", "apply.rs", "dosc.rs"],
+    lemmas=["sums.rs", "iterlem.rs", "coinsview.rs", "header.rs", "seal_opaque.rs", "tips.rs", "apply.rs", "microergs.rs", "dosc.rs"],
     items=[
         TypeItem(S, "struct", "UnsealedState"),
         TypeItem(S, "enum", "StateError", derive="#[derive(Clone, Copy, PartialEq, Eq, Structural)]"),
@@ -16,8 +16,7 @@ UNIT = Unit(
         Raw("impl melpow::HashFunction for LegacyMelPowHash { open spec fn tip910() -> bool { false } }\nimpl melpow::HashFunction for Tip910MelPowHash { open spec fn tip910() -> bool { true } }"),
         Raw("use num::{BigInt, BigRational, rational::Ratio};\npub mod melmint { pub use super::*; }   // the repo's module path `melmint::` (all extracted items live in one flat module)"),
         Fn(M, "microergs_per_dosc", mode="assume", **mm_microergs()),
-        Fn(M, "dosc_inflator", home="C18", implicit_props=("C09", "C18"),
-           ensures=[C("ratio", "res@ == (num::rational::Frac { n: spec_microergs(height.0 as nat) as int, d: 1_000_000 })", "C18", char=True)]),
+        Fn(M, "dosc_inflator", home="C18", implicit_props=("C09", "C18"), **mm_dosc_inflator()),
         Fn(M, "dosc_to_erg", home="C18", implicit_props=("C09", "C18"), rewrites=[("RENAME", "real", "real_")], **mm_dosc_to_erg(),
            injects=[Inject(("after_let", "result"), """proof { let m = spec_microergs(height.0 as nat) as int; let r = real_ as int;
                assert(result@.d == 1_000_000 * 1); assert(result@.n == m * r); assert(m * r == r * m) by (nonlinear_arith); }""")]),
